@@ -488,7 +488,8 @@ class AppClock(Clock, metaclass=MetaAppClock):
             item._clock = cls
             if delta == float('inf'):
                 return
-            ClockTask(delta, cls, item, _libsc3.main._clock_scheduler)
+            seconds = _libsc3.main.current_tt._seconds + delta
+            ClockTask(seconds, cls, item, _libsc3.main._clock_scheduler)
         else:
             with cls._sched_lock:
                 cls._scheduler.sched(delta, item)
